@@ -331,7 +331,7 @@ Proof.
 Qed.
 Print Assumptions C07_unrepaired_short_enough_refuted.
 
-(* 90667bc: for a resolution <= 0 the densify loop never finishes, whatever the fuel *)
+(* 0d98c78: for a resolution <= 0 the densify loop never finishes, whatever the fuel *)
 Theorem C07_unrepaired_nonpositive_resolution_refuted :
   (forall p1 p2 L r fuel d, r <= 0 -> d < L -> dloop fuel p1 p2 L r d = None) /\
   densify_gen (Build_fixes true false true true) exact_sqrt [(0, 0); (3, 4)] 0 = Err ERuntime.
@@ -340,14 +340,14 @@ Proof.
 Qed.
 Print Assumptions C07_unrepaired_nonpositive_resolution_refuted.
 
-(* b82bfc2: an empty coordinate list (empty LineString / Polygon) raised IndexError *)
+(* b9d25ee: an empty coordinate list (empty LineString / Polygon) raised IndexError *)
 Theorem C07_unrepaired_empty_refuted :
   densify_gen (Build_fixes true true false true) exact_sqrt [] 1 = Err EIndex /\
   segmented_gen (Build_fixes true true false true) exact_sqrt 1 (Polygon [] []) = Err EIndex.
 Proof. split; vm_compute; reflexivity. Qed.
 Print Assumptions C07_unrepaired_empty_refuted.
 
-(* f270811: to_crs(resolution="auto") on a zero-area geometry densified with
+(* ecfe9c0: to_crs(resolution="auto") on a zero-area geometry densified with
    resolution 0 and never returned *)
 Theorem C07_unrepaired_auto_zero_area_refuted :
   forall crs crs_eqb geographic proj is_valid repair chop clip (s c : crs) w cf,
